@@ -32,7 +32,7 @@ MAX_EXAMPLES = 200          # offending vectors kept per (clause, class)
 # One JVM per shard, NCPU shards at once: keep each JVM's helper threads few.  Short runs (quick) are
 # dominated by JIT warm-up, C1 only is 3-6x faster there (measured: 16 shards 20 s -> 3.3 s).
 JAVA_OPTS = dict(quick="-Xmx2g -Xss16m -XX:ParallelGCThreads=2 -XX:TieredStopAtLevel=1",
-                 thorough="-Xmx3g -Xss16m -XX:ParallelGCThreads=2 -XX:CICompilerCount=2")
+                 thorough="-Xmx2g -Xss16m -XX:ParallelGCThreads=2 -XX:CICompilerCount=2")
 
 
 # ------------------------------------------------------------------------------------------ signature classes
@@ -91,6 +91,12 @@ def classify(s, clause):
 def vec_bytes(e):
     if "rep" in e: return bytes(e["pre"]) + bytes([e["rep"]]) * e["n"] + bytes(e["post"])
     return bytes(e["b"])
+
+
+def _size_key(line):
+    e = json.loads(line)
+    if "rep" in e: return (len(e["pre"]) + e["n"] + len(e["post"]), [], e["id"])
+    return (len(e["b"]), e["b"], e["id"])
 
 
 def show(e):
@@ -203,7 +209,7 @@ def run_vectors(tier, seed):
     if r["lines"] != nvec:
         raise CheckError("C16: %d vectors written, %d lines judged" % (nvec, r["lines"]))
     for g in r["groups"].values():
-        g["lines"].sort(key=lambda l: (len(l), l))          # shortest inputs first
+        g["lines"].sort(key=_size_key)                      # shortest inputs first
     r["tlc_s"] = round(time.time() - t2, 1)
     r["wall_s"] = round(time.time() - t0, 1)
     # a few recorded lines as samples
@@ -228,6 +234,11 @@ def report(pid, groups, tag=""):
     """prints KNOWN-FINDING / VIOLATION lines; returns (#new violations, #known occurrences, detail)"""
     known = [k for k in vlib.load_findings() if k.get("property") == pid and k.get("status") == "open"]
     seen, new, detail = {}, 0, []
+    rdir = os.path.join(vlib.WORK, "replay")
+    if not tag and os.path.isdir(rdir):          # replay directories of earlier runs are stale now
+        for fn in os.listdir(rdir):
+            if fn.startswith(pid + "-" + pid + "_") and not fn.endswith("-replayed"):
+                shutil.rmtree(os.path.join(rdir, fn), ignore_errors=True)
     for key in sorted(groups):
         clause, cls = key.split("|")
         g = groups[key]
